@@ -2,8 +2,8 @@
     Statements only; proofs in Proofs/C04.v (payment secrets over abstract primitives), Proofs/C04c.v
     (the executable instance) and Proofs/C04b.v (receiver state machine). Models:
     Model/InboundSecret.v, Model/InboundSecretExec.v, Model/Inbound.v. *)
-From LdkV Require Import Prim.U64 Crypto.Bytes Crypto.Sha256 Gen.Consts Gen.ConstsC04
-  Model.InboundSecret Model.InboundSecretExec Model.Inbound Proofs.C04 Proofs.C04c Proofs.C04b.
+From LdkV Require Import Prim.U64 Prim.Rs2vLib Crypto.Bytes Crypto.Sha256 Gen.Consts Gen.ConstsC04 Gen.InboundChecks
+  Model.InboundSecret Model.InboundSecretExec Model.Inbound Proofs.C04 Proofs.C04c Proofs.C04b Proofs.C04d.
 Open Scope Z_scope.
 
 (** * payment secrets *)
@@ -104,9 +104,10 @@ Proof. exact verify_unknown_method. Qed.
     HTLC_FAIL_BACK_BUFFER, and every part records that amount. *)
 Theorem C04_claimable_only_if_complete : forall s o hash A d,
   In (OClaimable hash A d) (snd (step s o)) ->
-  exists pid onion_cltv cltv value intended fl purpose min_cltv e',
-    o = Recv hash pid onion_cltv cltv value intended fl purpose true min_cltv /\
-    onion_cltv <= cltv /\ height s + HTLC_FAIL_BACK_BUFFER + 1 < cltv /\ intended <= value /\
+  exists pid onion_cltv cltv value intended fl purpose min_cltv sk up e',
+    o = Recv hash pid onion_cltv cltv value intended fl purpose true min_cltv sk up /\
+    onion_cltv <= cltv /\ height s + HTLC_FAIL_BACK_BUFFER + 1 < cltv /\
+    final_hop_underpaid up intended value sk = false /\
     (forall dd, min_cltv = Some dd -> height s + dd <= cltv) /\
     sum_intended (match get hash (claimable s) with Some e => py_parts e | None => [] end)
       < f_total (py_fields e') /\
@@ -123,10 +124,11 @@ Proof. exact claimable_only_if_complete. Qed.
 (** A part failing any per-HTLC check (expiry below the onion's, inside the claim buffer, under-paid,
     not authenticated by [verify], below the committed min_final_cltv_expiry_delta) is failed back
     and the state does not change. *)
-Theorem C04_rejects_are_failed_back : forall s hash pid onion_cltv cltv value intended fl purpose auth min_cltv,
-  cltv < onion_cltv \/ cltv <= height s + HTLC_FAIL_BACK_BUFFER + 1 \/ value < intended \/ auth = false \/
+Theorem C04_rejects_are_failed_back : forall s hash pid onion_cltv cltv value intended fl purpose auth min_cltv sk up,
+  cltv < onion_cltv \/ cltv <= height s + HTLC_FAIL_BACK_BUFFER + 1 \/
+  final_hop_underpaid up intended value sk = true \/ auth = false \/
   (exists d, min_cltv = Some d /\ cltv < height s + d) ->
-  exists r, step s (Recv hash pid onion_cltv cltv value intended fl purpose auth min_cltv) = (s, [OFailPart pid r]).
+  exists r, step s (Recv hash pid onion_cltv cltv value intended fl purpose auth min_cltv sk up) = (s, [OFailPart pid r]).
 Proof. exact recv_reject. Qed.
 
 (** An incomplete set that reaches MPP_TIMEOUT_TICKS is failed back entirely and forgotten. *)
@@ -177,6 +179,64 @@ Theorem C04_late_claim_fails_back : forall s hash known e,
   (forall p, In p (py_parts e) -> exists r, In (OFailPart (pt_id p) r) outs).
 Proof. exact claim_never_drops. Qed.
 
+(** What the regenerated final-hop amount check (onion_payment.rs) says: without
+    accept_underpaying_htlcs a part must carry at least the sender-intended amount; with it, at least
+    that amount less the fee the previous hop declares to have skimmed. *)
+Theorem C04_underpaid_spec : forall up intended value sk,
+  final_hop_underpaid up intended value sk = false <->
+  (up = false /\ intended <= value) \/ (up = true /\ intended <= sat_add 64 value (unwrap_or sk 0)).
+Proof. exact underpaid_spec. Qed.
+
+(** A set for which PaymentClaimable was emitted is never failed by the timer: after PaymentClaimable
+    {A, d}, for EVERY sequence of ticks (any number), blocks below d, further HTLCs and claims /
+    fail-backs of other payments, every announced part is still held, and the next tick emits nothing
+    for the payment and keeps all its parts — whatever the parts' values are relative to their
+    sender-intended amounts (skimmed fees, overpayment): completeness at a tick is judged on the same
+    sender-intended sums as completeness on arrival. *)
+Theorem C04_claimable_not_timed_out : forall s0 o0 hash A d ops,
+  In (OClaimable hash A d) (snd (step s0 o0)) ->
+  forallb (quiet_for hash d) ops = true ->
+  let s1 := fst (step s0 o0) in
+  exists e e',
+    get hash (claimable s1) = Some e /\
+    get hash (claimable (fst (run s1 ops))) = Some e' /\ same_core e e' /\
+    snd (tick_payment (hash, e')) = [] /\
+    exists e'', fst (tick_payment (hash, e')) = Some (hash, e'') /\ same_core e' e''.
+Proof. exact claimable_not_timed_out. Qed.
+
+(** PaymentClaimed reports the announced amount or nothing is claimed: after PaymentClaimable {A, d}
+    from a state with one entry per payment hash, for EVERY sequence of ticks, blocks at ANY height
+    (parts may be failed back at their own deadlines, the rest may time out) and operations on other
+    payments, a claim_funds that reports PaymentClaimed reports amount A = the sum of the values of
+    the parts announced, releases the preimage on every part still held, and — if the announced parts
+    have positive value — those are ALL the announced parts; if an announced part is gone, the claim
+    emits nothing but fail-backs. *)
+Theorem C04_claim_amount_is_announced : forall s0 o0 hash A d ops known,
+  sorted (claimable s0) ->
+  In (OClaimable hash A d) (snd (step s0 o0)) ->
+  forallb (calm_for hash) ops = true ->
+  let s1 := fst (step s0 o0) in
+  let outs := snd (step (fst (run s1 ops)) (Claim hash known)) in
+  exists e,
+    get hash (claimable s1) = Some e /\ A = sum_value (py_parts e) /\
+    (forall A' pids, In (OClaimed hash A' pids) outs ->
+       A' = A /\
+       exists e', get hash (claimable (fst (run s1 ops))) = Some e' /\
+                  sum_value (py_parts e') = A /\ pids = map pt_id (py_parts e') /\
+                  subseq (map core (py_parts e')) (map core (py_parts e)) /\
+                  (forall p, In p (py_parts e') -> In (OFulfill (pt_id p)) outs) /\
+                  ((forall p, In p (py_parts e) -> 0 < pt_value p) ->
+                   map core (py_parts e') = map core (py_parts e))) /\
+    (forall e', get hash (claimable (fst (run s1 ops))) = Some e' ->
+       (forall p, In p (py_parts e) -> 0 < pt_value p) ->
+       map core (py_parts e') <> map core (py_parts e) ->
+       forall o, In o outs -> exists pid r, o = OFailPart pid r).
+Proof. exact claim_amount_is_announced. Qed.
+
+(** ... and every state reached from the empty one has one entry per payment hash. *)
+Theorem C04_reachable_sorted : forall h ops, sorted (claimable (fst (run (init h) ops))).
+Proof. intros h ops. apply run_sorted. apply init_sorted. Qed.
+
 (** the history of H2: part A fails at the deadline, the late claim fails part B back *)
 Example C04_ex_late_claim :
   snd (run (init 100) h2_ops) =
@@ -188,12 +248,46 @@ Proof. exact late_claim_fails_back_example. Qed.
 (** * non-vacuity *)
 Example C04_ex_mpp_claim :
   snd (run (init 100)
-         [ Recv 1 11 200 200 1000 1000 h2_fields 9 true None;
-           Recv 1 12 230 230 2000 2000 h2_fields 9 true None;
-           Tick; Block 150; Recv 1 13 230 230 500 500 h2_fields 9 true None;
+         [ Recv 1 11 200 200 1000 1000 h2_fields 9 true None None false;
+           Recv 1 12 230 230 2000 2000 h2_fields 9 true None None false;
+           Tick; Block 150; Recv 1 13 230 230 500 500 h2_fields 9 true None None false;
            Claim 1 false ]) =
   [ []; [OClaimable 1 3000 (200 - HTLC_FAIL_BACK_BUFFER)]; []; []; [OFailPart 13 F_IncorrectPaymentDetails];
     [OClaimed 1 3000 [11; 12]; OFulfill 11; OFulfill 12] ].
+Proof. vm_compute. reflexivity. Qed.
+
+(** skimmed parts: both parts arrive with 100 msat less than the sender intended, on channels that
+    accept underpaying HTLCs; the set is complete on the sender-intended amounts (3000), PaymentClaimable
+    announces what was received (2800), five ticks later nothing has happened, the claim reports 2800.
+    The same part on a channel that does not accept underpaying HTLCs is failed back at once. *)
+Example C04_ex_skimmed :
+  snd (run (init 100)
+         [ Recv 1 11 200 200 900 1000 h2_fields 9 true None (Some 100) true;
+           Recv 1 12 230 230 1900 2000 h2_fields 9 true None (Some 100) true;
+           Tick; Tick; Tick; Tick; Tick;
+           Claim 1 false;
+           Recv 2 21 200 200 900 1000 h2_fields 9 true None (Some 100) false;
+           Recv 2 22 200 200 900 1000 h2_fields 9 true None (Some 99) true ]) =
+  [ []; [OClaimable 1 2800 (200 - HTLC_FAIL_BACK_BUFFER)]; []; []; []; []; [];
+    [OClaimed 1 2800 [11; 12]; OFulfill 11; OFulfill 12];
+    [OFailPart 21 F_FinalIncorrectHTLCAmount]; [OFailPart 22 F_FinalIncorrectHTLCAmount] ].
+Proof. vm_compute. reflexivity. Qed.
+
+(** an overshooting set: 1000 + 1000 + 3500 for a total of 3000 (announced: 5500). The part with the
+    least expiry is failed back at its deadline; the remaining 4500 still exceed the total, but the
+    late claim claims NOTHING and fails both survivors back. *)
+Example C04_ex_overshoot_late_claim :
+  snd (run (init 100)
+         [ Recv 1 11 200 200 1000 1000 h2_fields 9 true None None false;
+           Recv 1 12 230 230 1000 1000 h2_fields 9 true None None false;
+           Recv 1 13 230 230 3500 3500 h2_fields 9 true None None false;
+           Tick; Tick; Tick; Tick;
+           Block (200 - HTLC_FAIL_BACK_BUFFER);
+           Tick; Tick; Tick; Tick;
+           Claim 1 false ]) =
+  [ []; []; [OClaimable 1 5500 (200 - HTLC_FAIL_BACK_BUFFER)]; []; []; []; [];
+    [OFailPart 11 F_PaymentClaimBuffer]; []; []; []; [];
+    [OFailPart 12 F_IncorrectPaymentDetails; OFailPart 13 F_IncorrectPaymentDetails] ].
 Proof. vm_compute. reflexivity. Qed.
 
 Example C04_ex_secret_roundtrip :
